@@ -6,6 +6,7 @@ import socket
 from stix2.equivalence.pattern.compare.comparison import (
     object_path_to_raw_values,
 )
+from stix2.patterns import StringConstant
 
 # Values we can use as wildcards in path patterns
 _ANY_IDX = object()
@@ -110,7 +111,7 @@ def windows_reg_key(comp_expr):
     if (
         _path_is(comp_expr.lhs, ("key",))
         or _path_is(comp_expr.lhs, ("values", _ANY_IDX, "name"))
-    ) and isinstance(comp_expr.rhs.value, str):
+    ) and isinstance(comp_expr.rhs, StringConstant):
         # (other constant kinds and set literals are compared as they are)
         comp_expr.rhs.value = comp_expr.rhs.value.lower()
 
@@ -131,7 +132,7 @@ def ipv4_addr(comp_expr):
         comp_expr: A _ComparisonExpression object whose type is ipv4-addr.
     """
     if _path_is(comp_expr.lhs, ("value",)) \
-            and isinstance(comp_expr.rhs.value, str):
+            and isinstance(comp_expr.rhs, StringConstant):
         value = comp_expr.rhs.value
         slash_idx = value.find("/")
         is_cidr = slash_idx >= 0
@@ -193,7 +194,7 @@ def ipv6_addr(comp_expr):
         comp_expr: A _ComparisonExpression object whose type is ipv6-addr.
     """
     if _path_is(comp_expr.lhs, ("value",)) \
-            and isinstance(comp_expr.rhs.value, str):
+            and isinstance(comp_expr.rhs, StringConstant):
         value = comp_expr.rhs.value
         slash_idx = value.find("/")
         is_cidr = slash_idx >= 0
